@@ -150,6 +150,21 @@ func (fc *FuncCtx) lookupGoType(t *SType, env *SpecEnv) types.Type {
 // lookupVar resolves a program variable by name in the state.
 func (fc *FuncCtx) lookupVar(st *St, name string) (Term, bool) {
 	var best types.Object
+	// while a callee is inlined at a call site, its own variables (declared inside its body) win over
+	// same-named variables of the functions around it
+	if fc.inlineSite != "" && fc.inlineRef != nil {
+		lo, hi := fc.inlineRef.Decl.Pos(), fc.inlineRef.Decl.End()
+		for o := range st.vars {
+			if o.Name() == name && o.Pos() >= lo && o.Pos() <= hi {
+				if best == nil || o.Pos() < best.Pos() {
+					best = o
+				}
+			}
+		}
+		if best != nil {
+			return st.vars[best], true
+		}
+	}
 	for o := range st.vars {
 		if o.Name() == name {
 			if best == nil || o.Pos() < best.Pos() {
